@@ -57,6 +57,7 @@ WITNESS = {
   'gen_semantics': ('samlang-compiler', 'crates/samlang-compiler/src/lib.rs', 'wx/witness/samlang_compiler_gen.rs', 'verif_witness_search_gen_semantics'),
   'gen_backends': ('samlang-compiler', 'crates/samlang-compiler/src/lib.rs', 'wx/witness/samlang_compiler_gen.rs', 'verif_witness_search_gen_backends'),
   'gen_optimizer': ('samlang-compiler', 'crates/samlang-compiler/src/lib.rs', 'wx/witness/samlang_compiler_gen.rs', 'verif_witness_search_gen_optimizer'),
+  'gen_rejects': ('samlang-compiler', 'crates/samlang-compiler/src/lib.rs', 'wx/witness/samlang_compiler_gen.rs', 'verif_witness_search_gen_rejects'),
   'nocrash': ('samlang-compiler', 'crates/samlang-compiler/src/lib.rs', 'wx/witness/samlang_compiler_lib.rs', 'verif_witness_search_no_crash'),
   'loctree': ('samlang-parser', 'crates/samlang-parser/src/lib.rs', 'wx/witness/samlang_parser_locations.rs', 'verif_witness_search_location_tree'),
   'printmods': ('samlang-printer', 'crates/samlang-printer/src/lib.rs', 'wx/witness/samlang_printer_modules.rs', 'verif_witness_search_modules'),
@@ -95,6 +96,8 @@ def search(unit, repo, seed=0, timeout=900):
     m = re.search(r'WITNESS: (.*)$', out, re.M)
     res = {'cmd': ' '.join(cmd) + '   (in a scratch copy of /repo with `#[cfg(test)] #[path = "%s"] mod verif_witness;` appended to %s)' % (os.path.join(VERIF, src), rel),
            'log_tail': out[-2500:], 'log_head': out[:20000], 'wall_s': time.time() - t0}
+    # an exploration may report, apart from its verdict, inputs it knows to fail on the pinned tree (recorded findings)
+    res['pinned'] = re.findall(r'PINNED-FINDING: (\S+): (.*)$', out, re.M)
     if m:
       res.update(found=True, witness=m.group(1))
     elif 'WITNESS-SEARCH: no violating history found' in out:
